@@ -13,9 +13,9 @@ def run(ctx):
     #    batched deletion, ResetFlood, reopen (lastMappingIDToInsert is lost) transcribed; the
     #    flood bound is stated on the ghost allowance `credit`
     r, items = M.mc(ctx, "MetaDB_map.cfg", "map", {"MaxOps": "= 3"}, INV, PROP, export=True)
-    items = M.sample(ctx, items, 2500 if th else 400, 1)
+    items = M.sample(ctx, items, 2500 if th else 300, 1)
     r, it = M.mc(ctx, "MetaDB_map2.cfg", "map2", {"MaxOps": "= 4"}, INV, PROP, export=True)
-    items += M.sample(ctx, it, 2500 if th else 400, 2)
+    items += M.sample(ctx, it, 2500 if th else 300, 2)
     if th:
         M.mc(ctx, "MetaDB_map.cfg", "map deep", {"MaxOps": "= 4"}, INV, PROP, timeout=7200, coverage=True)
         M.mc(ctx, "MetaDB_map2.cfg", "map2 deep", {"MaxOps": "= 6"}, INV, PROP, timeout=7200)
@@ -28,7 +28,7 @@ def run(ctx):
     rnd = random.Random(ctx.seed)
     for k in range(4 if th else 1):
         budget = M.random_budget(rnd) if k else (2, 10, 2, 1, 1000005)
-        r, it = M.scripts(ctx, "scripts %d" % k, {"map"}, 300 if th else 100, 60, budget, INV, PROP, salt=20 + k)
+        r, it = M.scripts(ctx, "scripts %d" % k, {"map"}, 300 if th else 70, 60, budget, INV, PROP, salt=20 + k)
         items += it
     if th:
         # the default constants of the metadata server (1000 / 3600 s / 10), global budget spent
